@@ -49,7 +49,7 @@ def _configs(tier, seed):
             o.update(max_iterations_per_step=3000, dt_max=0.02, solve_time=0.25)
         drive = {"A": S.field_spec(rng, dev, o, "ramp" if name == "timedep_callable" else "uniform", b=0.3),
                  "currents": S.current_spec(rng, dev, o, {"timedep_callable": "callable", "four_terminals_callable": "callable", "plain_adaptive": "const"}.get(name, "none"), strength=0.2),
-                 "epsilon": {"kind": "spatial_novec" if name == "epsilon_callable" else "one"}}
+                 "epsilon": {"kind": "spatial_novec" if name == "epsilon_callable" else ("time" if name == "plain_adaptive" else "one")}}  # (plain_adaptive: epsilon(r, t))
         cfgs.append({"name": name, "device": dev, "options": o, "drive": drive})
     return cfgs
 
@@ -80,7 +80,7 @@ def gen_cases(tier, seed):
         o["terminal_psi"] = ["none", 0.5][(k // 2) % 2]
         drive = {"A": S.field_spec(rngh, dev, o, "uniform", b=0.25), "currents": S.current_spec(rngh, dev, o, "const", strength=0.2)}
         ang = float(rngh.uniform(0, 2 * np.pi))
-        cases.append({"layer": "history", "config": f"history{k}", "device": dev, "options": dict(o, output="file"), "drive": drive,
+        cases.append({"layer": "history", "config": f"history{k}", "device": dev, "options": dict(o, output="file"), "drive": drive, "reuse_options": bool(o["adaptive"]),
                       "translate": [[0.37, 3.1, 41.7][(k // 2) % 3] * np.cos(ang), [0.37, 3.1, 41.7][(k // 2) % 3] * np.sin(ang)] if k % 2 == 0 else None, "cost": 20, "timeout": 900})
     return cases
 
@@ -274,19 +274,29 @@ def _run_history(spec):
     y = copy.deepcopy(spec)
     y["options"].update(terminal_psi=0.0)
     y["drive"] = {"A": {"kind": "zero"}, "currents": spec["drive"]["currents"]}
-    r0 = sim.run_sim(y, [], device=used)
+    opts_obj = None
+    if spec.get("reuse_options"):
+        # ONE SolverOptions object: the earlier run used it with adaptive=False; the user then flips adaptive on and runs again
+        y = copy.deepcopy(spec)
+        y["options"].update(adaptive=False, solve_time=30 * spec["options"]["dt_init"])
+        y["options"].pop("auto_dt", None)
+        opts_obj = sim.build_options(y["options"], output_file=None)
+    r0 = sim.run_sim(y, [], device=used, options_obj=opts_obj)
     if r0.refused:
         return {"violations": [], "counters": {"refused_mesh": 1}, "classes": ["refused"], "nontrivial": False}
-    if r0.exception is not None:
+    if r0.exception is not None and not (isinstance(r0.exception, RuntimeError) and "converge" in str(r0.exception)):
         return {"status": "harness_error", "error": "first run of the history failed: " + repr(r0.exception)[:200]}
-    r0.cleanup()
+    r0.cleanup()  # (an earlier run that gave up with 'failed to converge' is a history like any other)
     move(used)
     fresh = build()
     move(fresh)
     runs = []
+    if opts_obj is not None:
+        opts_obj.adaptive = True
+        opts_obj.solve_time = spec["options"]["solve_time"]
     for label, d in (("used_device", used), ("fresh_device", fresh)):
         tm = simmon.TraceMonitor()
-        rr = sim.run_sim(spec, [tm], device=d, keep_dir=True)
+        rr = sim.run_sim(spec, [tm], device=d, keep_dir=True, options_obj=opts_obj if label == "used_device" else None)
         if rr.refused:
             return {"violations": [], "counters": {"refused_mesh": 1}, "classes": ["refused"], "nontrivial": False}
         dg, ups = _digests(rr, tm)
@@ -297,7 +307,7 @@ def _run_history(spec):
     for k in sorted(set(da) | set(db)):
         if da.get(k) != db.get(k):
             V.append({"kind": "result_depends_on_what_the_device_was_used_for_before", "mechanism": "nondeterministic_" + k,
-                      "detail": {"what": k, "history": "solve(terminal_psi=0), " + ("translate in place, " if spec.get("translate") else "") + "solve", "updates": [na, nb]}})
+                      "detail": {"what": k, "history": ("solve(adaptive=False) with the same options object, " if spec.get("reuse_options") else "solve(terminal_psi=0), ") + ("translate in place, " if spec.get("translate") else "") + "solve", "updates": [na, nb]}})
             break
     return {"violations": V, "counters": C, "classes": ["history", "translated=" + str(bool(spec.get("translate"))), "terminal_psi=" + str(spec["options"].get("terminal_psi"))],
             "nontrivial": min(na, nb) >= 10, "sample": {"config": spec["config"], "updates": [na, nb], "digests_equal": not V}}
